@@ -50,7 +50,7 @@ def cstr(b):
     return "(" + " ++ ".join(chunks) + ")"
 
 USER = "alice@example.com"
-CLS_CODES = {0: None, 2: "bare_cr_header", 4: "flag_atom"}
+CLS_CODES = {0: None, 2: "bare_cr_header"}
 
 # ---------------------------------------------------------------------------
 # generators
@@ -62,6 +62,19 @@ LOCALS = [b'a', b'bob', b'"x y"', b'a(b', b'p{1}', b'q\\r', b'\xe9']
 HOSTS = [b'b.c', b'example.com', b'h)', b'[1.2.3.4]', b'']
 BODY_LINES = [b'* 1 FETCH (FLAGS ())', b'A1 OK done', b'{5}', b')', b'* 1 FETCH (BODY[] {3}', b'abc', b'"', b'\\',
               b'plain text line', b'\xe9t\xe9', b'(((', b'x4 OK FETCH completed', b'', b'--b1', b'.']
+
+
+RAW_LINES = [b"nul \x00 inside", b"\x00", b"\x00lead", b"trail\x00", b"lone\rcr", b"\rstart", b"lone\nlf", b"\x80\x81\xfe\xff", b"\xc2\x85\xe2\x80\xa8",
+             b"{5}", b")", b"* 1 FETCH (BODY[] {3}", b"A1 OK done", b"\x00\x00\x00", b"a\x00b\x00c", b"\x7f\x01\x1b[0m"]
+EDGE_HEADS = [b"", b"", b"\x00", b")\r\n* 1 FETCH (FLAGS ())\r\n", b"{5}\r\n", b"\r\nA1 OK done\r\n", b"\n", b"\r", b"\xff"]
+EDGE_TAILS = [b"", b"", b"\x00", b"\r\nA1 OK done", b")\r\n* 1 FETCH (BODY[] {5}", b"{5}", b"\r", b"\n", b"\x00\r\n", b")"]
+
+
+def raw_body(rng):
+    """body with NUL, lone CR, lone LF, 0x80-0xFF and response look-alikes, also at its first and last octets
+    (the boundaries of the literal that carries it)"""
+    lines = [rng.choice(RAW_LINES + BODY_LINES) for _ in range(rng.randint(0, 5))]
+    return rng.choice(EDGE_HEADS) + rng.choice([b"\r\n", b"\r\n", b"\n"]).join(lines) + rng.choice(EDGE_TAILS)
 
 
 def hostile_text(rng, n):
@@ -142,10 +155,19 @@ def gen_message(rng, allow_cr=False):
             h.append(b"Content-Type: " + rng.choice([b"text/plain; charset=utf-8", b'text/html; charset="x\\"y"',
                                                     b"application/x-q; name=\"(n)\"", b"text/plain"]))
         body = b"\r\n".join(lines) + (b"\r\n" if lines else b"")
+    raw_mode = rng.random() < 0.4
+    if raw_mode:
+        if rng.random() < 0.5:
+            h.append(b"X-Raw: " + rng.choice([b"v\x00w", b"\x00", b"a\x80\xffb", b"nul\x00 {5} )", b"\x01\x7f"]))
+        if not multipart:
+            body = raw_body(rng)
     raw = b"\r\n".join(h) + b"\r\n\r\n" + body
     if len(raw) == 0:
         raw = b"\r\n"
-    return {"raw": raw, "multipart": multipart}
+    via = "append"
+    if raw_mode and rng.random() < 0.4 and b"\r\nTo:" in b"\r\n" + raw and raw.endswith(b"\r\n"):
+        via = "lmtp"
+    return {"raw": raw, "multipart": multipart, "via": via}
 
 
 MIME_HOSTILE = [b'"', b'\\', b'(', b')', b'{5}', b'{', b'}', b'[', b']', b'%', b'*', b';', b'=', b"'", b' ', b'a', b'Z9', b'NIL', b'\\"', b'x-dos\\path', b'"8bit"', b'8bit']
@@ -388,14 +410,27 @@ def build_scenario(sc):
         add("cmd", None, cmd("c", tag(), b"CREATE " + mb))
         add("cmd", None, cmd("c", tag(), b"SUBSCRIBE " + mb))
     for m in sc["messages"]:
-        add("append", None, append_op("c", tag(), m["raw"], m.get("flags", b"")))
+        if m.get("via") != "lmtp":
+            add("append", None, append_op("c", tag(), m["raw"], m.get("flags", b"")))
+    lm = [m for m in sc["messages"] if m.get("via") == "lmtp"]
+    if lm:
+        add("lmtp", None, {"op": "lmtp_open", "conn": "l"})
+        add("lmtp", None, {"op": "send", "conn": "l", "data": "LHLO x\r\n", "until": "lmtp:1"})
+        for m in lm:
+            stuffed = b"\r\n".join((b"." + ln if ln.startswith(b".") else ln) for ln in m["raw"].split(b"\r\n"))
+            add("lmtp", None, {"op": "send", "conn": "l", "data": "MAIL FROM:<sender@example.com>\r\n", "until": "lmtp:1"})
+            add("lmtp", None, {"op": "send", "conn": "l", "data": "RCPT TO:<%s>\r\n" % USER, "until": "lmtp:1"})
+            add("lmtp", None, {"op": "send", "conn": "l", "data": "DATA\r\n", "until": "lmtp:1"})
+            add("deliver", None, {"op": "send", "conn": "l", "data": C.latin(stuffed + b".\r\n"), "until": "lmtp:1"})
     add("cmd", None, cmd("c", tag(), "SELECT INBOX"))
     for s in sc.get("stores", []):
         add("cmd", None, cmd("c", tag(), s))
     add("sql", None, {"op": "sql", "store": "user_db_1",
                       "q": "SELECT mm.uid, mm.flags FROM message_mailbox mm JOIN mailboxes mb ON mb.id = mm.mailbox_id WHERE mb.name = 'INBOX' ORDER BY mm.uid"})
+    order = [i for i, m in enumerate(sc["messages"]) if m.get("via") != "lmtp"] + [i for i, m in enumerate(sc["messages"]) if m.get("via") == "lmtp"]
+    seqno = {mi: k + 1 for k, mi in enumerate(order)}
     for i in range(len(sc["messages"])):
-        n = i + 1
+        n = seqno[i]
         add("probe_msg", i, cmd("c", tag(), "FETCH %d:%d BODY[]" % (n, n)))
         add("probe_date", i, cmd("c", tag(), "FETCH %d:%d INTERNALDATE" % (n, n)))
         add("probe_bs", i, cmd("c", tag(), "FETCH %d:%d BODYSTRUCTURE" % (n, n)))
@@ -403,9 +438,9 @@ def build_scenario(sc):
             add("probe_part", (i, p), cmd("c", tag(), "FETCH %d:%d BODY.PEEK[%s]" % (n, n, p)))
     for k, (mi, text, uidmode) in enumerate(sc["requests"]):
         if uidmode:
-            add("fetch", k, cmd("c", tag(), "UID FETCH %d %s" % (sc.get("uids", {}).get(mi, mi + 1), text)))
+            add("fetch", k, cmd("c", tag(), "UID FETCH %d %s" % (seqno[mi], text)))
         else:
-            add("fetch", k, cmd("c", tag(), "FETCH %d:%d %s" % (mi + 1, mi + 1, text)))
+            add("fetch", k, cmd("c", tag(), "FETCH %d:%d %s" % (seqno[mi], seqno[mi], text)))
     add("list", "LIST", cmd("c", tag(), 'LIST "" "*"'))
     add("list", "LSUB", cmd("c", tag(), 'LSUB "" "*"'))
     for mb in sc["mailboxes"]:
@@ -471,7 +506,8 @@ def analyse_scenario(sc, res):
     """-> dict(envs, fetch_cases, list_cases, status_cases, stream, anomalies)"""
     ops, idx = build_scenario(sc)
     obs = res.get("obs", [])
-    out = {"envs": {}, "fetch": [], "lists": [], "status": [], "stream": b"", "anomalies": []}
+    out = {"envs": {}, "fetch": [], "lists": [], "status": [], "stream": b"", "anomalies": [], "others": []}
+    order = [i for i, m in enumerate(sc["messages"]) if m.get("via") != "lmtp"] + [i for i, m in enumerate(sc["messages"]) if m.get("via") == "lmtp"]
     if res.get("crashed") or len(obs) != len(ops):
         out["anomalies"].append("driver crashed: %s" % res.get("stderr", "")[:300])
         return out
@@ -487,14 +523,18 @@ def analyse_scenario(sc, res):
             if o.get("how") != "ok" and not (o.get("how") == "eof" and b"LOGOUT" in recv.upper()):
                 out["anomalies"].append("no tagged completion (%s) for op %s" % (o.get("how"), kind))
             out["stream"] += recv
+            if kind == "cmd" or kind.startswith("probe"):
+                out["others"].append({"kind": kind, "info": info, "recv": recv})
         if kind == "append":
             appended.append(b" OK " in recv)
+        elif kind == "deliver":
+            appended.append(recv.startswith(b"250"))
         elif kind == "sql":
             rows = o.get("rows") or []
-            for i, r in enumerate(rows):
-                if i in envs:
-                    envs[i]["uid"] = int(r[0])
-                    envs[i]["flags"] = C.unlatin(r[1] or "")
+            for k, r in enumerate(rows):
+                if k < len(order):
+                    envs[order[k]]["uid"] = int(r[0])
+                    envs[order[k]]["flags"] = C.unlatin(r[1] or "")
         elif kind == "probe_msg":
             v = single_value(recv, "BODY[]")
             envs[info]["msg"] = T.literal_payload(v) if v is not None else None
@@ -521,8 +561,11 @@ def analyse_scenario(sc, res):
         elif kind == "status":
             out["status"].append({"name": info, "recv": recv})
     if not all(appended) or len(appended) != nmsg:
-        out["anomalies"].append("APPEND refused for some message: FETCH cases of this scenario are not judged (message numbers shift)")
-        out["fetch"] = []
+        out["anomalies"].append("APPEND / LMTP delivery refused for some message: the FETCH cases of this scenario are judged by the recogniser only (message numbers shift)")
+        for fc in out["fetch"]:
+            fc["ast"] = None
+        for e in envs.values():
+            e.pop("msg", None)
     out["envs"] = envs
     return out
 
@@ -550,6 +593,8 @@ def judge_fetch_(case, env):
     if not T.wf_stream(recv):
         return False, "stream not well-formed (literal count / parentheses / quoted string / line structure)", ("lexical", None)
     ls = fetch_lines(recv)
+    if len(ls) == 0 and case.get("lexical_only"):
+        return True, "", None
     if len(ls) != 1:
         return False, "expected exactly one untagged FETCH response, got %d" % len(ls), ("pairs", None)
     fp = T.fetch_pairs(ls[0])
@@ -855,7 +900,7 @@ def coq_env(name, e):
 
 COQ_EVAL = """
 Definition cls_code (o : option finding) : nat :=
-  match o with None => 0 | Some bare_cr_header => 2 | Some flag_atom => 4 | Some _ => 5 end.
+  match o with None => 0 | Some bare_cr_header => 2 | Some _ => 5 end.
 Definition items_of (uidmode : bool) (arg : str) : str :=
   if uidmode then uid_fetch_items arg else fetch_items arg.
 Definition seq_of (obs : str) : nat := Z.to_nat (digits_val (fst (span_digits (skipn 2 obs) [])) 0).
@@ -1000,7 +1045,7 @@ def gen_scenario(chk, hostile):
         m = gen_message(rng, allow_cr=hostile)
         fl = b""
         if rng.random() < 0.5:
-            fl = b" ".join(rng.sample([b"\\Seen", b"\\Flagged", b"$Junk", b"custom", b"\\Draft", b"kw\xe9"], rng.randint(1, 3)))
+            fl = b" ".join(rng.sample([b"\\Seen", b"\\Flagged", b"$Junk", b"custom", b"\\Draft", b"kw-1"], rng.randint(1, 3)))
         m["flags"] = fl
         msgs.append(m)
     boxes = []
@@ -1053,6 +1098,27 @@ def evaluate(chk, scs, results, label):
             if e.get("msg") is None or "uid" not in e or e.get("idate") is None:
                 continue
             cases.append((si, fc, e))
+    # every FETCH that cannot be compared with the model (no probe of its message) and every other command
+    # response (SELECT, STORE, the single-item probes themselves ...) is still judged by the recogniser
+    in_cases = set((si, fc["k"]) for si, fc, _ in cases)
+    for si, an in enumerate(analyses):
+        for fc in an["fetch"]:
+            if (si, fc["k"]) in in_cases:
+                continue
+            fc2 = dict(fc, ast=None, lexical_only=True)
+            ok, why = judge_fetch(fc2, {})
+            if not ok:
+                chk.violation("FETCH %s on a stored message: %s" % (fc["text"], why),
+                              {"suite": "wire", "scenario": scenario_payload(scs[si]), "request_index": fc["k"], "command": fc["text"], "response": C.latin(fc["recv"][:4000])})
+        for oc in an["others"]:
+            if T.wf_stream(oc["recv"]):
+                if oc["kind"].startswith("probe") and len(fetch_lines(oc["recv"])) == 1 and T.fetch_pairs(fetch_lines(oc["recv"])[0]) is None:
+                    chk.violation("single-item FETCH probe (%s %s): response does not parse as (item value) pairs" % (oc["kind"], oc["info"]),
+                                  {"suite": "wire", "scenario": scenario_payload(scs[si]), "response": C.latin(oc["recv"][:4000])})
+                continue
+            chk.violation("response to %s %s is not well-formed (literal count / parentheses / quoted string / line structure): %r" % (oc["kind"], oc["info"], oc["recv"][:200]),
+                          {"suite": "wire", "scenario": scenario_payload(scs[si]), "response": C.latin(oc["recv"][:4000])},
+                          )
     stream_cases = [an["stream"] for an in analyses if an["stream"]]
     rows = []
     for si, fc, e in cases:
@@ -1165,13 +1231,13 @@ def evaluate(chk, scs, results, label):
 
 
 def scenario_payload(sc):
-    return {"messages": [{"raw": C.latin(m["raw"]), "flags": C.latin(m.get("flags", b""))} for m in sc["messages"]],
+    return {"messages": [{"raw": C.latin(m["raw"]), "flags": C.latin(m.get("flags", b"")), "via": m.get("via", "append")} for m in sc["messages"]],
             "mailboxes": [C.latin(b) for b in sc["mailboxes"]], "stores": [C.latin(s) for s in sc.get("stores", [])],
             "requests": [[mi, t, u] for (mi, t, u) in sc["requests"]]}
 
 
 def scenario_from_payload(p):
-    sc = {"messages": [{"raw": C.unlatin(m["raw"]), "flags": C.unlatin(m.get("flags", ""))} for m in p["messages"]],
+    sc = {"messages": [{"raw": C.unlatin(m["raw"]), "flags": C.unlatin(m.get("flags", "")), "via": m.get("via", "append")} for m in p["messages"]],
           "mailboxes": [C.unlatin(b) for b in p.get("mailboxes", [])], "stores": [C.unlatin(s) for s in p.get("stores", [])],
           "requests": [(r[0], r[1], bool(r[2])) for r in p.get("requests", [])], "asts": {}, "uids": {}}
     for k, a in (p.get("asts") or {}).items():
